@@ -245,6 +245,7 @@ class Interp:
                 if t['target'] is not None:
                     succs = [(t['target'], st)]
             elif t['k'] == 'switch':
+                self._cur_block = b
                 succs = self._switch(st, body, t)
             elif t['k'] == 'return':
                 for k, v in st.items():
@@ -384,6 +385,19 @@ class Interp:
             st[k] = v
 
     def _switch(self, st, body, t):
+        force = getattr(self, 'force', None)
+        if force and force.get('body') is body and force.get('block') == getattr(self, '_cur_block', None):
+            # boundary evaluation: take one edge only, with the compared value pinned to the threshold
+            st2 = dict(st)
+            k = force['key']
+            st2[k] = force['iv']
+            src = st2.get(('alias',) + k)
+            n = 0
+            while isinstance(src, tuple) and n < 4:
+                st2[src] = force['iv']
+                src = st2.get(('alias',) + src)
+                n += 1
+            return [(force['target'], st2)]
         pl = t['discr'].get('copy') or t['discr'].get('move')
         out = []
         tm = {v: tg for v, tg in t['targets']}
